@@ -182,6 +182,9 @@ func (c Command) ForEach(ctx context.Context, payload xml.TokenReader, s *xmpp.S
 		}
 		c, payload, err = f(resp, respPayload)
 		if err != nil {
+			// Stream processing waits for the response to be closed.
+			/* #nosec */
+			respPayload.Close()
 			return err
 		}
 		err = respPayload.Close()
